@@ -126,3 +126,13 @@ Definition decode_area (area : list Z) : area_content :=
 
 (* the stream of a compressed area *)
 Definition area_stream (area : list Z) : list Z := skipn 8 area.
+
+(* ---- the compatibility suffix ----
+   PICO-8 appends one of these lines to the code it stores for a cart that mentions _update60
+   (so that the cart still runs at 30 fps on versions without _update60) and removes it again when
+   it loads the cart; a reader of carts is expected to do the same. Consequently a text that itself
+   ends with one of these lines cannot be told apart from a text that had it appended. *)
+Definition pxc_future1 : list Z :=
+  "if(_update60)_update=function()_update60()_update60()end"%bs.
+Definition pxc_future2 : list Z :=
+  "if(_update60)_update=function()_update60()_update_buttons()_update60()end"%bs.
